@@ -2,6 +2,7 @@
 package main
 
 import (
+	"encoding/json"
 	"fmt"
 	"os"
 
@@ -45,6 +46,28 @@ func main() {
 		case "--tier":
 			if i+1 < len(os.Args) {
 				tier = os.Args[i+1]
+				i++
+			}
+		case "--replay":
+			if i+1 < len(os.Args) {
+				data, err := os.ReadFile(os.Args[i+1])
+				if err != nil {
+					core.Fatal("replay file: %v", err)
+				}
+				var rf struct {
+					Key  string `json:"key"`
+					Seed int64  `json:"seed"`
+					Tier string `json:"tier"`
+				}
+				if json.Unmarshal(data, &rf) != nil || rf.Key == "" {
+					core.Fatal("replay file %s has no violation key", os.Args[i+1])
+				}
+				core.ReplayKey = rf.Key
+				os.Setenv("VERIF_SEED", fmt.Sprint(rf.Seed))
+				os.Setenv("VERIF_REPLAY_FILE", os.Args[i+1])
+				if rf.Tier != "" {
+					tier = rf.Tier
+				}
 				i++
 			}
 		}
